@@ -219,4 +219,28 @@ example : (run {} [.newMatrix, .newFrame "A" 0x10 false, .addFrame 0 0, .byId 0 
                    .setId 0 0x20 false, .byId 0 0x10 false, .byId 0 0x20 false]).2.drop 5
             = [.found none, .found (some 0)] := by decide
 
+/-! ## lookup by header id (a plain scan) -/
+
+/-- a frame is returned only if it is in the matrix and carries the requested header id -/
+theorem byHeaderId_sound (frames : List (Nat × Option Nat)) (q h : Nat) (hr : byHeaderId frames q = some h) :
+    (h, some q) ∈ frames := by
+  unfold byHeaderId at hr
+  cases hf : frames.find? (fun f => f.2 == some q) with
+  | none => simp [hf] at hr
+  | some f =>
+    simp only [hf, Option.map_some, Option.some.injEq] at hr
+    have hm := List.mem_of_find?_eq_some hf
+    have hp := List.find?_some hf
+    have : f.2 = some q := by simpa using hp
+    rcases f with ⟨a, b⟩
+    simp only at hr this
+    subst hr; subst this
+    exact hm
+
+/-- nothing is returned exactly when no frame of the matrix carries the header id (0 is a header id like any other) -/
+theorem byHeaderId_complete (frames : List (Nat × Option Nat)) (q : Nat) :
+    byHeaderId frames q = none ↔ ∀ f ∈ frames, f.2 ≠ some q := by
+  unfold byHeaderId
+  simp only [Option.map_eq_none_iff, List.find?_eq_none, beq_iff_eq]
+
 end CanVerif.C10
